@@ -72,13 +72,16 @@ func magicCompare(c *core.Ctx, h *history, res *execResult) bool {
 }
 
 func magicHistories(c *core.Ctx) {
-	// corpus: a stream that ends in a Read error, then a valid one (the broken reader must not be reused)
+	// corpus: a stream that ends in a Read error / a stream after which Reset(nil) fails, then a valid one
+	// (the broken reader must not be reused)
 	corpus := []*history{
 		{Codec: "magic", Ops: []op{
 			{Kind: "rt", In: inputSpec{Gen: "ramp", Size: 9}, EncDst: dstSpec{Mode: "nil"}, DecDst: dstSpec{Mode: "small", Cap: 2}},
 			{Kind: "bad", Bad: corruptSpec{Mode: "garbage", Len: 5, Seed: 3}, DecDst: dstSpec{Mode: "nil"}},
 			{Kind: "bad", Bad: corruptSpec{Mode: "badend", Len: 6}, DecDst: dstSpec{Mode: "nil"}},
 			{Kind: "rt", In: inputSpec{Gen: "text", Size: 40}, EncDst: dstSpec{Mode: "large", Cap: 100}, DecDst: dstSpec{Mode: "nil"}},
+			{Kind: "bad", Bad: corruptSpec{Mode: "sticky", Len: 4}, DecDst: dstSpec{Mode: "small", Cap: 3}},
+			{Kind: "rt", In: inputSpec{Gen: "rep", Size: 17}, EncDst: dstSpec{Mode: "nil"}, DecDst: dstSpec{Mode: "nil"}},
 			{Kind: "bad", Bad: corruptSpec{Mode: "empty"}, DecDst: dstSpec{Mode: "zero"}},
 			{Kind: "gc"},
 			{Kind: "rt", In: inputSpec{Gen: "rand", Size: 1}, EncDst: dstSpec{Mode: "zero"}, DecDst: dstSpec{Mode: "small", Cap: 1}},
@@ -90,7 +93,7 @@ func magicHistories(c *core.Ctx) {
 		h := genHistory(c, "magic", 4+c.Rng.Intn(30), 600, 300, 35)
 		for i := range h.Ops {
 			if h.Ops[i].Kind == "bad" && c.Rng.Intn(2) == 0 {
-				h.Ops[i].Bad = corruptSpec{Mode: "badend", Len: c.Rng.Intn(40), Seed: int64(c.Rng.Intn(1000))}
+				h.Ops[i].Bad = corruptSpec{Mode: pickStr(c, "badend", "sticky"), Len: c.Rng.Intn(40), Seed: int64(c.Rng.Intn(1000))}
 			}
 			// alias capacities are not predictable for the model: keep them out of the compared histories
 			if h.Ops[i].EncDst.Mode == "alias" {
@@ -106,6 +109,11 @@ func magicHistories(c *core.Ctx) {
 	for k := 0; k < c.N(10, 60); k++ {
 		h := genHistory(c, "magic", 10+c.Rng.Intn(20), 2000, 300, 35)
 		h.Goroutines = 8 + c.Rng.Intn(24)
+		for i := range h.Ops {
+			if h.Ops[i].Kind == "bad" && c.Rng.Intn(2) == 0 {
+				h.Ops[i].Bad = corruptSpec{Mode: pickStr(c, "badend", "sticky"), Len: c.Rng.Intn(40), Seed: int64(c.Rng.Intn(1000))}
+			}
+		}
 		hs = append(hs, h)
 	}
 	results := runAll(hs)
